@@ -10,9 +10,10 @@ from hypothesis import strategies as st
 from . import env, ir, refwalk, strategies as S
 
 
-def assemble(asm, src, compress=False, include_dirs=None):
+def assemble(asm, src, compress=False, include_dirs=None, labels=None, constants=None):
     """('ok', bytes, labels, consts) | ('refused', AssemblerError) | ('exc', exception)"""
-    labels, consts = {}, {}
+    labels = {} if labels is None else labels
+    consts = {} if constants is None else constants
     try:
         out = asm.assemble(src, labels=labels, constants=consts, compress=compress, include_dirs=include_dirs)
         return ('ok', bytes(out), labels, consts)
